@@ -48,6 +48,18 @@ CLAIMED.update({
    text='Every heap store of insert_quant/insert_dequant/add_op_code/add_new_activation_tensor is checked against a frame that admits only objects of the instruction\'s own subgraph, the shared op-code table (extended, existing entries fixed) and fresh objects; _update_op_id_map/_apply_single_transformation leave the op-id maps of every other subgraph untouched. Hence the final state of subgraph i is a function of its own instructions.',
    note='Assumes object graphs of different subgraphs are disjoint. Name-keyed plan generation and shared constants (C15) are not re-proved here; no end-to-end multi-signature comparison yet.',
    design='§4 C19'),
+ 'C04': dict(
+   technique='contract-based deductive verification: CPython-executed symbolic arrays over the real parameter/statistics/bias code -> QF VCs (z3 LIA/NRA); exhaustive native execution of the real materialize functions over the finite (op, bits, granularity, rank) tables',
+   level='proof',
+   text='_get_tensor_quant_params / tensor_zp_scale_from_min_max equal the reference min/max formulas for 4/8/16 bit x symmetry x granularity for all statistics; bias scale = input scale x weight scale per channel, zero point 0, 32/64 bit; fixed softmax/logistic/tanh ranges; same-scale ops share (scale, zero point, bits, symmetry, dimension) of their input (concatenation: of the output); quantized-dimension table and its agreement with the reduce-dims of the statistics for every (op, rank, granularity); activation configs of the policy are all tensor-wise. Reference values are written in the check from the TFLite spec, not read from the code.',
+   note='float arithmetic treated as real arithmetic; numpy reductions (min/max) trusted (attainment only via a bounded stand-in); statistics being the true ones is C09; BLOCKWISE / emulated sub-channel not under contract; rank <= 5.',
+   design='§4 C04'),
+ 'C05': dict(
+   technique='contract-based deductive verification: spec-level lemma chain (z3 NRA) for the decode bound, bit-vector VCs from the real _pack_data executed on a symbolic byte array, CPython-executed symbolic arrays for bias/params, exhaustive native tables for quantize_tensor and every registered materialize path',
+   level='proof',
+   text='|dequant(quant(x)) - x| <= s/2 (symmetric) / s (asymmetric) for every x in the statistics range and every integer range (lemma chain over the reference functions, linked to the code by C17/C04); int4 nibble packing for arbitrary length and index; quantize_tensor writes exactly pack(bytes(quantized_data)), dtype table, scale/zeroPoint/dimension fields, under the precondition "stored data <=> quantized_data present", which every registered materialize path and every call site is shown to establish; fp16 constants are astype(float16) of the originals; bias = clip(rint(bias/scale)).',
+   note='float32 arithmetic treated as real arithmetic (binary32 decode only sampled in a bounded stand-in); numpy astype(float16) = round-to-nearest-even trusted; tobytes/frombuffer trusted; int64 bias saturation at +2^63 noted as an observation outside the property (saturation exempted).',
+   design='§4 C05'),
  'C10': dict(
    technique='contract-based deductive verification: both _get_op_scope copies verified against one spec function (AST symbolic executor, loop invariant, string theory as uninterpreted concat+length, z3); call-site/dataflow obligations on the real ASTs of the three selection loops',
    level='proof',
